@@ -30,6 +30,8 @@ type world struct {
 	srv     *scripted
 	wrapCC  grpc.ClientConnInterface
 	grpcCC  *grpc.ClientConn
+	wrapEP  *endpoint // wrapCC + the generated trait wrappers of the sampled services
+	grpcEP  *endpoint // grpcCC + typed gRPC clients of the same services
 	cleanup func()
 }
 
@@ -39,6 +41,7 @@ func newWorld() *world {
 	lis := bufconn.Listen(1 << 20)
 	gs := grpc.NewServer()
 	testproto.RegisterTestApiServer(gs, w.srv)
+	registerTraits(gs, w.srv)
 	go func() { _ = gs.Serve(lis) }()
 	cc, err := grpc.NewClient("passthrough:///bufnet",
 		grpc.WithContextDialer(func(ctx context.Context, _ string) (net.Conn, error) { return lis.DialContext(ctx) }),
@@ -47,6 +50,8 @@ func newWorld() *world {
 		lib.Fatal(err)
 	}
 	w.grpcCC = cc
+	w.wrapEP = wrapEndpoint(w.srv, w.wrapCC)
+	w.grpcEP = grpcEndpoint(cc)
 	w.cleanup = func() { cc.Close(); gs.Stop() }
 	return w
 }
@@ -70,6 +75,7 @@ func main() {
 	}
 	runScripts(f, res, w, drv)
 	runOpen(f, res, w, drv)
+	runSelect(f, res, w, drv)
 	if err := res.Write(f.Out); err != nil {
 		lib.Fatal(err)
 	}
@@ -135,8 +141,8 @@ func evKind(e string) string {
 
 // checkCase evaluates the property on one script pair: wrapper vs bufconn gRPC, plus leak and copy.
 func checkCase(w *world, mon *lib.Monitor, c scase) (ow, og outcome) {
-	ow = runCase(w.wrapCC, w.srv, c, true)
-	og = runCase(w.grpcCC, w.srv, c, false)
+	ow = runCase(w.wrapEP, w.srv, c, true)
+	og = runCase(w.grpcEP, w.srv, c, false)
 	if og.skip || ow.skip {
 		og.timedOut = true
 		mon.Count("skipped:too-slow-for-deadline")
@@ -325,6 +331,10 @@ func runScripts(f lib.Flags, res *lib.Result, w *world, drv *lib.Driver) {
 		}
 	}
 	runStress(f, w, mon)
+	for _, c := range append(parkedCases(), parkedVariants(r, f.N(40, 600))...) {
+		checkCase(w, mon, c)
+		mon.Count("parked")
+	}
 	runResponseThenError(w, mon)
 	runTrailerAfterAbort(w, mon)
 	var pool []scase
@@ -350,12 +360,12 @@ func runScripts(f lib.Flags, res *lib.Result, w *world, drv *lib.Driver) {
 func runStress(f lib.Flags, w *world, mon *lib.Monitor) {
 	reps := f.N(400, 4000)
 	for _, c := range ampCases(0) {
-		og := runCase(w.grpcCC, w.srv, c, false)
+		og := runCase(w.grpcEP, w.srv, c, false)
 		if og.timedOut || og.skip {
 			continue
 		}
 		for i := 0; i < reps; i++ {
-			ow := runCase(w.wrapCC, w.srv, c, false)
+			ow := runCase(w.wrapEP, w.srv, c, false)
 			mon.Count("stress-repetition")
 			if d := firstDiff(ow.client, og.client); d != "" {
 				mon.Violate("C13/"+c.Shape+"/client-transcript/"+d,
